@@ -115,6 +115,10 @@ def work(task):
         if W > 1 and (len(lengths) > 1 or not joint):
             acc.nontrivial += 1
         msg = judge(rec)
+        from vlib.seams import TRACER
+        if msg is None and TRACER.init_mismatch:
+            msg = (f"the main loop was handed {TRACER.init_mismatch[1]} stacked windows, the series hold "
+                   f"{TRACER.init_mismatch[0]} (sum of len - W + 1)")
         if msg:
             acc.fail(case, f"N={N} W={W} K={K} lengths={list(lengths)}: {msg}")
         if not rec.rng_clean:
